@@ -64,6 +64,15 @@ pub fn main(args: &[String]) {
 		let _ = std::io::stdout().flush();
 		finish(rest);
 	}
+	if let Some(rest) = reply.strip_prefix("touch|") {
+		// "touch|exit:<n>": the hook itself creates the file it was called for (a pre-create hook that prepares the file)
+		if let Some(path) = args.iter().find_map(|a| a.strip_prefix("file_path=")) {
+			if !path.is_empty() {
+				let _ = std::fs::OpenOptions::new().create(true).append(true).open(path);
+			}
+		}
+		finish(rest);
+	}
 	finish(reply);
 }
 
